@@ -27,6 +27,7 @@ type Step struct {
 	Del  bool   `json:"del,omitempty"`
 	Park bool   `json:"park,omitempty"`
 	Ms   int    `json:"ms,omitempty"`
+	Us   int    `json:"us,omitempty"` // race: delay between the unlock start and the cancellation
 }
 
 type Case struct {
@@ -35,6 +36,7 @@ type Case struct {
 	Keys    int    `json:"keys"`
 	GraceMs int    `json:"grace_ms,omitempty"`
 	Family  string `json:"family,omitempty"`
+	Rounds  int    `json:"rounds,omitempty"`
 	Steps   []Step `json:"steps"`
 }
 
@@ -438,6 +440,13 @@ func (r *run) valid(st Step) bool {
 		return r.c.Prim == "context" && th.cancel != nil && th.ph == phInLock && th.ctx.Err() == nil
 	case "close":
 		return r.c.Prim == "outer" && !r.shutdown
+	case "race": // unlock writer K while cancelling waiting reader T
+		if r.c.Prim != "outer" || st.K < 0 || st.K >= r.c.N {
+			return false
+		}
+		wr := r.th[st.K]
+		return wr.ph == phHolding && wr.md == "w" && !r.s.ws[st.K].busy.Load() &&
+			th.ph == phInLock && th.md == "r" && th.cancel != nil && th.ctx.Err() == nil
 	case "sleep":
 		return true
 	}
@@ -489,6 +498,16 @@ func (r *run) doStep(st Step) {
 		r.s.releaseParked(st.T)
 	case "cancel":
 		r.s.log("env e=cancel t=%d", st.T)
+		th.cancel()
+	case "race":
+		wr := r.th[st.K]
+		r.s.log("env e=cancel t=%d", st.T)
+		r.mu.Lock()
+		wr.ph, wr.probed = phInUnlock, false
+		r.mu.Unlock()
+		r.s.start(st.K, "", r.opUnlock(st.K, Step{Do: "start", T: st.K, Op: "unlock"}))
+		for t0 := time.Now(); time.Since(t0) < time.Duration(st.Us)*time.Microsecond; {
+		}
 		th.cancel()
 	case "close":
 		r.s.log("env e=shutdown")
